@@ -110,6 +110,73 @@ def spec_cmp(op, xs):
     return all(f(a, b) for a, b in zip(xs, xs[1:]))
 
 
+def _r32(x):
+    import struct
+    try:
+        return struct.unpack(">f", struct.pack(">f", x))[0]
+    except OverflowError:
+        return float("inf") if x > 0 else float("-inf")
+
+
+def _to_f32(fr):
+    """an exact operand converted for an inexact operation: an integer by one rounding, a ratio as f32(n) / f32(d)"""
+    if fr.denominator == 1:
+        return _r32(float(fr.numerator))
+    return _r32(_r32(float(fr.numerator)) / _r32(float(fr.denominator)))
+
+
+def spec_mixed(op, operand_canon):
+    """+ - * / on operands of which at least one is inexact, following the left fold step by step: while both sides are exact
+    the step is exact; from the first inexact operand on, the exact side is converted and the step is the binary32 operation
+    (binary64 then one rounding: innocuous for these four operations). -> canonical result, or None when not predicted
+    (an exact intermediate leaving the representable range, a zero divisor)."""
+    import struct
+    if op not in ("+", "-", "*", "/") or not any(c.startswith("r:") for c in operand_canon):
+        return None
+    vals = []
+    for c in operand_canon:
+        if c == "r:nan":
+            vals.append(float("nan"))
+        elif c.startswith("r:"):
+            vals.append(f32_of(c))
+        else:
+            e = exact_of(c)
+            if e is None:
+                return None
+            vals.append(e)
+    if op in "+*":
+        vals = [Fraction(0 if op == "+" else 1)] + vals
+    elif len(vals) == 1:
+        vals = [Fraction(0 if op == "-" else 1)] + vals
+    acc = vals[0]
+    for x in vals[1:]:
+        if isinstance(acc, Fraction) and isinstance(x, Fraction):
+            if op == "/" and x == 0:
+                return None
+            acc = {"+": acc + x, "-": acc - x, "*": acc * x, "/": acc / x if x != 0 else None}[op]
+            if not representable(acc):
+                return None
+            continue
+        a = _to_f32(acc) if isinstance(acc, Fraction) else acc
+        b = _to_f32(x) if isinstance(x, Fraction) else x
+        if op == "/" and b == 0:
+            if a != a or a == 0:
+                acc = float("nan")
+            else:
+                neg = (math.copysign(1.0, a) < 0) != (math.copysign(1.0, b) < 0)
+                acc = float("-inf") if neg else float("inf")
+            continue
+        try:
+            acc = _r32({"+": a + b, "-": a - b, "*": a * b, "/": a / b if b != 0 else 0.0}[op])
+        except OverflowError:
+            return None
+    if isinstance(acc, Fraction):
+        return None
+    if acc != acc:
+        return "r:nan"
+    return "r:%d" % struct.unpack(">I", struct.pack(">f", acc))[0]
+
+
 def check_arith_oracle(op, operand_canon, result):
     """property oracle on the implementation alone (exact operands only). None if fine, else a
     description. `result` is the harness's field, e.g. 'V i:3' or 'E divZero -'."""
@@ -127,6 +194,10 @@ def check_arith_oracle(op, operand_canon, result):
                 return "expected the binary32 %s of the operand, bits %d, got %s" % (op, wb, result[2:])
         return None
     if any(x is None for x in xs):
+        want = spec_mixed(op, operand_canon)
+        if want is not None and result.startswith("V ") and result[2:] != want:
+            return ("an operand is inexact: expected the binary32 result of the operation on the converted operands, %s, got %s"
+                    % (want, result[2:]))
         return None
     sp = spec_arith(op, xs)
     if sp is None:
